@@ -60,8 +60,45 @@ def run(R):
     for idx, model in bad:
         (l, pr), o = cases[idx], obs[idx]
         R.obligation_broken("correspondence C08/dispatch", f"loader={l!r} protocol={pr!r}: implementation {o}, model {model}")
+    old_layouts(R, rnd)
     if not ok or bad:
         search(R, snap, bad, cases, obs)
+
+
+def old_layouts(R, rnd):
+    """values holding functions / Generators at random nesting positions, rewritten into each older layout"""
+    import gen_values as GV
+    fixed = [["ufunc", "np.sqrt"], ["generator", "PCG64", 3, 2], ["list", [["ufunc", "scipy.special.expit"], ["generator", "MT19937", 1, 0]]],
+             ["dict", [[["str", "f"], ["partial", "np.add", [["int", 1]], []]], [["str", "g"], ["tuple", [["generator", "Philox", 2, 1], ["ufunc", "np.add"]]]]]],
+             ["objarray", [2], [["ufunc", "np.sqrt"], ["generator", "SFC64", 5, 0]]], ["defaultdict", "list", [[["str", "k"], ["list", [["ufunc", "np.log"]]]]]]]
+    specs = list(fixed)
+    n = 40 if R.tier == "quick" else 400
+    tries = 0
+    while len(specs) < n + len(fixed) and tries < 50 * n:
+        tries += 1
+        sp = GV.gen_value(rnd, supported=True, max_depth=3)
+        t = GV.tags_in(sp)
+        if "ufunc" in t or "generator" in t or "partial" in t:
+            specs.append(sp)
+    p = C.run_impl("impl_codec.py", input_obj={"mode": "old_layouts", "cases": specs}, timeout=900)
+    if p.returncode != 0:
+        R.obligation_broken("correspondence C08/old-layouts", p.stderr.decode(errors="replace")[-1000:])
+        return
+    nre = 0
+    for sp, rec in zip(specs, json.loads(p.stdout)):
+        if "skip" in rec:
+            continue
+        for proto, r in rec.items():
+            R.case({"old-layout": sp, "protocol": proto}, nontrivial=sum(r["rewritten"].values()) > 0)
+            R.count(f"old-layout:p{proto}:{r['result'].split(':')[0]}")
+            nre += sum(r["rewritten"].values())
+            # protocol 0 cannot represent a Generator in a way that passes the audit (the pinned suite expects that failure)
+            if proto == "0" and r["rewritten"]["rg"] and r["result"].startswith("raises:"):
+                continue
+            if r["result"] != "same":
+                R.violation({"kind": "old-layout-not-faithful", "protocol": int(proto), "functions": r["rewritten"]["fn"] > 0, "generators": r["rewritten"]["rg"] > 0},
+                            f"value rewritten into the protocol-{proto} layout ({r['rewritten']}) loads as {r['result']}", {"spec": sp, "protocol": int(proto)})
+    R.notes["old_layout_nodes_rewritten"] = nre
 
 
 def search(R, snap, bad=(), cases=(), obs=()):
